@@ -232,7 +232,7 @@ class DocGen:
         self.feat.add('math')
         if r.random() < 0.7 or not self.p.get('math_markup', True):
             return '<m:oMath><m:r><m:t>x</m:t></m:r><m:f><m:num><m:r><m:t>1</m:t></m:r></m:num><m:den><m:r><m:t>2</m:t></m:r></m:den></m:f></m:oMath>'
-        return '<m:oMathPara><m:oMath><m:r><m:t>y&lt;</m:t></m:r></m:oMath></m:oMathPara>'
+        return '<m:oMathPara><m:oMath><m:r><m:t>' + r.choice(['y&lt;', 'a&lt;b', 'x&gt;0 &amp; y', '&amp;lt;', 'p&amp;q', 'y&lt;']) + '</m:t></m:r></m:oMath></m:oMathPara>'
 
     # -- paragraph
     def ppr(self):
